@@ -111,6 +111,13 @@ func (p *FloatingIPPlugin) allocateIP(key string, nodeName string, pod *corev1.P
 	if err != nil {
 		return nil, fmt.Errorf("failed to query floating ip by key %s: %v", key, err)
 	}
+	// all ips of the key, it may hold ips outside the requested ranges
+	keyIPInfos := ipInfos
+	if len(ipranges) != 0 {
+		if keyIPInfos, err = p.ipam.ByKeyAndIPRanges(key, nil); err != nil {
+			return nil, fmt.Errorf("failed to query floating ip by key %s: %v", key, err)
+		}
+	}
 	if len(ipranges) == 0 && len(ipInfos) > 0 {
 		// reuse only one if requesting only one ip
 		ipInfos = ipInfos[:1]
@@ -126,7 +133,7 @@ func (p *FloatingIPPlugin) allocateIP(key string, nodeName string, pod *corev1.P
 	}
 	policy := parseReleasePolicy(&pod.ObjectMeta)
 	attr := floatingip.Attr{Policy: policy, NodeName: nodeName, Uid: string(pod.UID)}
-	for _, ipInfo := range ipInfos {
+	for _, ipInfo := range keyIPInfos {
 		// check if uid missmatch, if we delete a statfulset/tapp and creates a same name statfulset/tapp immediately,
 		// galaxy-ipam may receive bind event for new pod early than deleting event for old pod
 		if ipInfo != nil && ipInfo.PodUid != "" && ipInfo.PodUid != string(pod.GetUID()) {
